@@ -478,8 +478,8 @@ class Driver:
         cand = [s for pair in itertools.zip_longest(c_odd, c_even) for s in pair if s is not None]
         chosen, sums = [], {tuple([0] * self.dim)}
         rest = []
+        diffs = {tuple([0] * self.dim)}  # differences of two subset sums of the chosen states (changes only with `chosen`)
         for s in cand:
-            diffs = {tuple(a - b for a, b in zip(x, y)) for x in sums for y in sums}
             if s in diffs or tuple(-a for a in s) in diffs:
                 rest.append(s)
                 continue
@@ -487,6 +487,7 @@ class Driver:
             sums |= {tuple(a + b for a, b in zip(x, s)) for x in sums}
             if len(chosen) >= 7:
                 break
+            diffs = {tuple(a - b for a, b in zip(x, y)) for x in sums for y in sums}
         states = chosen + rest[: max(0, 6 - len(chosen))]
         if len(states) >= 4:
             # alternate parity classes where possible: odd, even, odd, ...
